@@ -138,6 +138,20 @@ func Packet(r *fw.Rand, c PacketClasses) *ref.Packet {
 		for _, id := range distinctIDs(r, n, 1, 255) {
 			p.Elems = append(p.Elems, ref.Elem{ID: id, Val: Value(r, twoByteLen(r))})
 		}
+		if c.Ext == 7 && r.Chance(1, 1500) {
+			// the largest two-byte block there is: (nearly) every id with a (nearly) 255-byte value - 255 * 257 = 65535 octets,
+			// a length word of 16384
+			p.Elems = nil
+			for _, id := range distinctIDs(r, 255, 1, 255) {
+				p.Elems = append(p.Elems, ref.Elem{ID: id, Val: r.Bytes(255)})
+			}
+			for deficit := r.Pick(0, 0, 1, 2, 3, 4, 5, 300); deficit > 0; deficit-- {
+				k := r.Intn(len(p.Elems))
+				if n := len(p.Elems[k].Val); n > 0 {
+					p.Elems[k].Val = p.Elems[k].Val[:n-1]
+				}
+			}
+		}
 	case 8, 9: // legacy
 		p.ExtKind = ref.ExtLegacy
 		for {
